@@ -3023,3 +3023,145 @@ func ruleTermPrepared(prop string) ruleFn {
 		}
 	}
 }
+
+// CLOCK-AFTER-LOCK (C07): expiry is judged against the time the state is read, not the time the lock was asked for.
+func ruleClockAfterLock(w *World, r *Report) {
+	r.Rule("CLOCK-AFTER-LOCK", "in every State function that takes the state lock itself and judges expiry against a clock reading (a value derived from NowSecs / time.Now handed to the purge helper), the clock is read after the lock was acquired: no path leads from the clock reading through the acquisition of the state lock to the use.  A lookup that waits for a writer across an item's expiry instant would otherwise compare against the time it started waiting, and return (and dispatch) the item after it expired, without purging it", 2)
+	a := newLocAnchors(w)
+	purge := purgeHelpers(w)
+	isClock := func(v ssa.Value) bool {
+		c, ok := v.(*ssa.Call)
+		if !ok {
+			return false
+		}
+		f := c.Common().StaticCallee()
+		return f != nil && (f.Name() == "NowSecs" || (f.Pkg != nil && f.Pkg.Pkg.Path() == "time" && f.Name() == "Now"))
+	}
+	n := 0
+	for _, fn := range w.Funcs {
+		owner, ok := stateOwnerOf(a, fn)
+		if !ok || isTestFile(w, fn) || fn.Parent() != nil {
+			continue
+		}
+		var locks, uses []ssa.Instruction
+		allInstrs(fn, func(in ssa.Instruction) {
+			c := callOf(in)
+			if c == nil {
+				return
+			}
+			if _, isDefer := in.(*ssa.Defer); isDefer {
+				return
+			}
+			f := c.StaticCallee()
+			if f == nil {
+				return
+			}
+			if o2, ok := stateOwnerOf(a, f); ok && o2 == owner && f.Name() == "slock" {
+				locks = append(locks, in)
+			}
+			if purge[f] {
+				for _, arg := range c.Args {
+					if b, ok := arg.Type().Underlying().(*types.Basic); ok && b.Kind() == types.Int64 && dependsOn(arg, isClock) {
+						uses = append(uses, in)
+					}
+				}
+			}
+		})
+		if len(locks) == 0 || len(uses) == 0 {
+			continue
+		}
+		n++
+		key := "fn=" + fname(fn)
+		bad := false
+		for _, u := range uses {
+			c := callOf(u)
+			var clocks []ssa.Instruction
+			for _, arg := range c.Args {
+				dependsOn(arg, func(v ssa.Value) bool {
+					if isClock(v) {
+						clocks = append(clocks, v.(ssa.Instruction))
+					}
+					return false
+				})
+			}
+			for _, ck := range clocks {
+				for _, l := range locks {
+					if reachable(fn, ck, l) && reachable(fn, l, u) && !bad {
+						r.violation("CLOCK-AFTER-LOCK", key, w.PosOf(ck), "the clock is read before the state lock is acquired (at "+w.PosOf(l)+") and the reading is used for the expiry test afterwards: a lookup that waits for the lock across an expiry instant returns the expired item")
+						bad = true
+					}
+				}
+			}
+		}
+		if !bad {
+			r.ok("CLOCK-AFTER-LOCK", key, w.PosOf(uses[0]), "the clock is read under the lock")
+		}
+	}
+	if n == 0 {
+		r.exempt("CLOCK-AFTER-LOCK", "scope=state implementations", "", "no state function both locks and judges expiry against a clock reading: shape not recognised, not decided")
+	}
+}
+
+// EXP-ABSOLUTE (C07): a given expiry instant is taken as it is.
+func ruleExpAbsolute(w *World, r *Report) {
+	r.Rule("EXP-ABSOLUTE", "in setExpires no value that derives from the fact's `expires` entry (an absolute instant given by the writer) also depends on the clock: only a ttl is relative to now.  `now + expires` would turn every given instant into one decades away — such an item is never refused as already expired, never expires and is never purged", 1)
+	fn := w.Func("core", "setExpires")
+	key := "fn=" + fname(fn)
+	isClock := func(v ssa.Value) bool {
+		c, ok := v.(*ssa.Call)
+		if !ok {
+			return false
+		}
+		f := c.Common().StaticCallee()
+		return f != nil && (f.Name() == "NowSecs" || (f.Pkg != nil && f.Pkg.Pkg.Path() == "time" && f.Name() == "Now"))
+	}
+	isExpLookup := func(v ssa.Value) bool {
+		lk, ok := v.(*ssa.Lookup)
+		if !ok {
+			return false
+		}
+		k, ok := constKey(lk.Index)
+		return ok && k == "expires"
+	}
+	n := 0
+	var bad ssa.Instruction
+	allInstrs(fn, func(in ssa.Instruction) {
+		bo, ok := in.(*ssa.BinOp)
+		if !ok {
+			return
+		}
+		if _, isInt := bo.Type().Underlying().(*types.Basic); !isInt {
+			return
+		}
+		switch bo.Op {
+		case token.ADD, token.SUB:
+		default:
+			return
+		}
+		dx, dy := dependsOn(bo.X, isExpLookup), dependsOn(bo.Y, isExpLookup)
+		cx, cy := dependsOn(bo.X, isClock), dependsOn(bo.Y, isClock)
+		if dx || dy {
+			n++
+		}
+		if (dx && cy) || (dy && cx) {
+			if bad == nil {
+				bad = in
+			}
+		}
+	})
+	// also: is there an `expires` lookup at all
+	has := false
+	allInstrs(fn, func(in ssa.Instruction) {
+		if v, ok := in.(ssa.Value); ok && isExpLookup(v) {
+			has = true
+		}
+	})
+	switch {
+	case !has:
+		r.exempt("EXP-ABSOLUTE", key, w.Pos(fn.Pos()), "setExpires does not look `expires` up: shape not recognised, not decided")
+	case bad != nil:
+		r.violation("EXP-ABSOLUTE", key, w.PosOf(bad), "a value derived from the given `expires` instant is combined with a clock reading: the absolute instant is treated as relative to now")
+	default:
+		r.ok("EXP-ABSOLUTE", key, w.Pos(fn.Pos()), "the given instant is never combined with the clock")
+	}
+}
